@@ -12,6 +12,8 @@
      ptdisto a0..a15 b0..b15    I tdisto
      quant  x sharpen iq bias   I quant_lane           S quant_go   (AC positions)
      pquant x sharpen iq bias   I quant_go
+     deq / deqdc x q            I dequant_lane_ac/dc   S dequant_go ; pdeq x q: I dequant_go
+     dc16 t0..t15 l0..l15       I dc16_lane            S dc_go (>>5, +16) ; dc8 likewise ; pdc16 / pdc8: I dc_go
      tm  top left tl            I l_tm_sample          S tm_sample
      ptm top left tl            I tm_sample
      agreen / sgreen a r g b    I *_green_lanes        S *_green_go (packed ARGB)
@@ -79,6 +81,19 @@ let () = iter_lines (fun line ->
                  both (string_of_z (ArchLane16.quant_lane x sh iq b)) (string_of_z (ArchLane16.quant_go x sh iq b))
                | _ -> failwith "quant")
     | "pquant" -> (match a with [x; sh; iq; b] -> one (string_of_z (ArchLane16.quant_go x sh iq b)) | _ -> failwith "pquant")
+    | "deq" -> (match a with [x; q] ->
+                 both (string_of_z (ArchLane16More.dequant_lane_ac x q)) (string_of_z (ArchLane16More.dequant_go x q))
+               | _ -> failwith "deq")
+    | "deqdc" -> (match a with [x; q] ->
+                 both (string_of_z (ArchLane16More.dequant_lane_dc x q)) (string_of_z (ArchLane16More.dequant_go x q))
+               | _ -> failwith "deqdc")
+    | "pdeq" -> (match a with [x; q] -> one (string_of_z (ArchLane16More.dequant_go x q)) | _ -> failwith "pdeq")
+    | "dc16" -> both (string_of_z (ArchLane16More.dc16_lane (take 16 a) (drop 16 a)))
+                     (string_of_z (ArchLane16More.dc_go (take 16 a) (drop 16 a) (z_of_int 5) (z_of_int 16)))
+    | "pdc16" -> one (string_of_z (ArchLane16More.dc_go (take 16 a) (drop 16 a) (z_of_int 5) (z_of_int 16)))
+    | "dc8" -> both (string_of_z (ArchLane16More.dc8_lane (take 8 a) (drop 8 a)))
+                    (string_of_z (ArchLane16More.dc_go (take 8 a) (drop 8 a) (z_of_int 4) (z_of_int 8)))
+    | "pdc8" -> one (string_of_z (ArchLane16More.dc_go (take 8 a) (drop 8 a) (z_of_int 4) (z_of_int 8)))
     | "tm" -> (match a with [t; l; tl] ->
                  both (string_of_z (ArchLane16.l_tm_sample t l tl)) (string_of_z (ArchLane16.tm_sample t l tl))
                | _ -> failwith "tm")
